@@ -153,8 +153,8 @@ def run_case(ctx, rng, n, workers, ncons, n_pre, with_store, gated, settle, hold
     for t, ind in enumerate(inds):
         idx_of[ind.id] = t
     db = None
-    if with_store:
-        db = os.path.join(tmpdir, "c%d.sqlite" % case_no)
+
+    def attach_store():
         p.data_store = SqliteDataStore(p, database_name=db)
         orig_sync = p.data_store.sync_individual
 
@@ -162,7 +162,16 @@ def run_case(ctx, rng, n, workers, ncons, n_pre, with_store, gated, settle, hold
             gate.arrive(("s", idx_of.get(ind.id, -1)))
             return orig_sync(ind, *a, **k)
         p.data_store.sync_individual = gated_sync
+    # every fourth case with a store: the algorithm (and with it the evaluator and its Job) exists before the store is
+    # attached to the problem - "with an SQLite store attached" is about the store the problem has when the batch runs
+    late_store = with_store and case_no % 4 == 1
+    if with_store:
+        db = os.path.join(tmpdir, "c%d.sqlite" % case_no)
+        if not late_store:
+            attach_store()
     algo = DummyAlgorithm(p)
+    if late_store:
+        attach_store()
     job = algo.evaluator.job
     real_evaluate = job.evaluate
 
@@ -425,7 +434,7 @@ def run(ctx):
         for _ in range(220 if ctx.quick else 12000):
             n = rng.randint(2, 8)
             plan.append(dict(n=n, workers=rng.randint(2, 4), ncons=rng.choice([0, 0, 1, 2]),
-                             n_pre=rng.choice([0, 0, 1, min(2, n - 1)]), with_store=rng.random() < 0.7,
+                             n_pre=rng.choice([0, 0, 1, min(2, n - 1), n]), with_store=rng.random() < 0.7,
                              gated=rng.random() < 0.85, settle=rng.choice([0.0, 0.001, 0.003]),
                              hold_lock=rng.random() < 0.06))
         for cfg in plan:
